@@ -274,6 +274,17 @@ func prepare(race bool, engine, engine2 string) *build {
 		os.RemoveAll(scratch)
 		die(2, "building vconv failed: %v\n%s", err, out)
 	}
+	if keep := os.Getenv("VERIF_KEEP_BUILD"); keep != "" {
+		// debugging aid: a copy of the instrumented binaries
+		os.MkdirAll(keep, 0o755)
+		for _, f := range []string{b.worker, b.vconv, b.httpWorker} {
+			if f != "" {
+				if data, err := os.ReadFile(f); err == nil {
+					os.WriteFile(filepath.Join(keep, filepath.Base(f)), data, 0o755)
+				}
+			}
+		}
+	}
 	return b
 }
 
